@@ -453,7 +453,10 @@ def json_to_opaque(text):
         pm = re.match(r'\s*"([A-Za-z0-9_]+)"\s*:\s*(.*)$', p, re.S)
         if not pm:
             raise ExtractError('R6o: unsupported json! entry %r' % p[:40])
-        out = 'jcons(vj(&(%s)), %s)' % (pm.group(2).strip(), out)
+        val = pm.group(2).strip()
+        if val.startswith('{') and re.match(r'\{\s*"', val):
+            val = json_to_opaque(val)          # a nested object literal: its members are evaluated the same way
+        out = 'jcons(vj(&(%s)), %s)' % (val, out)
     return out
 
 
@@ -471,6 +474,8 @@ def transform_fn(text, spec):
     sh = FnShape(text)
     t, m = sh.text, sh.m
     edits = []
+    await_edits = []      # R3 `.await` removals; one that lies inside the source text of an R11 rewrite is dropped (the rewrite wins)
+    r11_spans = []
 
     # rename
     if spec.get('rename'):
@@ -483,7 +488,7 @@ def transform_fn(text, spec):
             edits.append((am.start(), sh.kw, ''))
         for mm in re.finditer(r'\s*\.\s*await\b', m):
             if sh.bopen < mm.start() < sh.bclose:
-                edits.append((mm.start(), mm.end(), ''))
+                await_edits.append((mm.start(), mm.end(), ''))
 
     # R1 (const lifetime): a function-local `const X: &str = ..` needs its elided lifetime spelled out for Verus
     if not spec.get('plain'):
@@ -649,6 +654,7 @@ def transform_fn(text, spec):
                 raise ExtractError('R11: text to rewrite not found: %s' % frm)
             for mm in hits:
                 edits.append((mm.start(), mm.end(), to.replace('{id}', mm.group(1)) if '{id}' in frm else to))
+                r11_spans.append((mm.start(), mm.end()))
             continue
         start_at = sh.popen if frm.startswith('&') or frm.startswith('impl ') or '<' in frm else sh.bopen      # type texts may sit in the parameter list or be the return type
         pos = t.find(frm, start_at)
@@ -656,7 +662,9 @@ def transform_fn(text, spec):
             raise ExtractError('R11: text to rewrite not found: %s' % frm)
         while 0 <= pos < sh.bclose:
             edits.append((pos, pos + len(frm), to))
+            r11_spans.append((pos, pos + len(frm)))
             pos = t.find(frm, pos + len(frm))
+    edits.extend(e for e in await_edits if not any(a < e[1] and e[0] < b for a, b in r11_spans))
 
     # R10
     if 'R10' in rules:
